@@ -163,6 +163,10 @@ def _path(ctx, params):
         # the way a user restarts: x0 is the very array of the result it restarts from
         cfg["x0"] = ck["x"]
         ck_before = orch.snapshot_state(ck)
+    if params.get("x0_dtype") == "float32" and "x0" not in cfg:
+        # a single-precision start vector (feasible; its entries are taken to be representable)
+        a = prob.x0_array()
+        cfg["x0"] = SArr(a.shape, list(a.data), "float32")
     run.execute(cfg)
     groups = params.get("groups", ["C03", "C04", "C05", "C18"])
     info = {k: v for k, v in params.items() if k not in ("groups",)}
